@@ -6,4 +6,10 @@ def run(pid: str, tier: str, seed: int, replay: str | None) -> int:
     if pid == 'C05':
         from . import units_drv
         return units_drv.run(tier, seed)
+    if pid == 'C06':
+        from . import quantity_drv
+        return quantity_drv.run_C06(tier, seed)
+    if pid == 'C19':
+        from . import quantity_drv
+        return quantity_drv.run_C19(tier, seed)
     raise Machinery(f'no check registered for {pid}')
